@@ -771,6 +771,16 @@ class Rec:
 CFG = "INIT Init\nNEXT Next\nCHECK_DEADLOCK FALSE\n"
 
 
+def replay(body):
+    """re-record the trace named in a replay file on the current tree and validate it again"""
+    rr = body["rerun"]
+    cfg = tuple(rr["cfg"]) if isinstance(rr["cfg"], list) else rr["cfg"]
+    tr, hfails = _record((rr["seed"], rr["kind"], rr["ti"], rr["big"], rr["nev"], cfg))
+    verdicts, _ = validate([tr])
+    fails = [c for c, _ in verdicts[tr["id"]] if not c.startswith("DRIFT")] + [c for c, _ in hfails] + (["call_raises: " + tr["raised"]] if tr.get("raised") else [])
+    return fails
+
+
 def validate(traces, timeout=2400):
     slim = []
     for tr in traces:
@@ -801,6 +811,7 @@ def _record(args):
     tmp = tempfile.mkdtemp(prefix="scale-", dir=tlc.scratch_root())
     try:
         rec = Rec(rnd, kind, ti, tmp, big, cfg)
+        rec.tr["rerun"] = {"seed": seed, "kind": kind, "ti": ti, "big": big, "nev": nev, "cfg": list(cfg) if isinstance(cfg, tuple) else cfg}
         if kind in ("hh", "st"):
             rec.run_table(4000 if big else nev * 3)
         elif kind == "bits":
@@ -852,7 +863,7 @@ def run(focus, tier, seed):
         for clause, n in tr.get("hchecks", {}).items():
             total.ok(clause.split(".")[0], clause, n)
         for clause, detail in hfails:
-            total.fail(clause.split(".")[0], clause, ENGINE, {"kind": tr["kind"], "big": tr["big"], "config": {k: tr[k] for k in ("m", "k", "w", "d", "est", "qmax", "q", "auto")}, "detail": detail},
+            total.fail(clause.split(".")[0], clause, ENGINE, {"kind": tr["kind"], "big": tr["big"], "config": {k: tr[k] for k in ("m", "k", "w", "d", "est", "qmax", "q", "auto")}, "detail": detail, "rerun": tr.get("rerun")},
                        {"kind": tr["kind"], "big": tr["big"]})
         if tr.get("raised"):
             prop = {"qf": "C04", "cms": "C02", "cbloom": "C08", "ebf": "C09", "rbf": "C10", "cko": "C03", "ccko": "C03", "disk": "C11", "hh": "C17", "st": "C17", "bits": "C20"}.get(tr["kind"], "C01")
@@ -875,7 +886,8 @@ def run(focus, tier, seed):
                 prop = clause.split(".")[0]
                 e = tr["ev"][idx - 1]
                 total.fail(prop, clause + ".scale", ENGINE, {"kind": tr["kind"], "big": tr["big"], "config": {k: tr[k] for k in ("m", "k", "w", "d", "est", "qmax", "q", "auto")},
-                                                             "event_index": idx, "event": {"op": e["op"], "keys_in_batch": len(e["ks"]), "n": e["n"], "probes": e["probes"][:12], "aux": e["aux"]}},
+                                                             "event_index": idx, "event": {"op": e["op"], "keys_in_batch": len(e["ks"]), "n": e["n"], "probes": e["probes"][:12], "aux": e["aux"]},
+                                                             "rerun": tr.get("rerun")},
                            {"kind": tr["kind"], "big": tr["big"]})
             for prop, cl in (("C01", "C01.present"), ("C02", "C02.bounds"), ("C03", "C03.kept"), ("C04", "C04.member"), ("C08", "C08.cb_lower"), ("C09", "C09.cap"),
                              ("C10", "C10.window"), ("C12", "C12.cells"), ("C14", "C14.count"), ("C17", "C17.table"), ("C20", "C20.bits")):
